@@ -97,7 +97,7 @@ def quoting_contracts():
     kwloop = LoopSpec(
         fall_through=lambda env, st, x: [("the member does not casefold-equal s", casefold(x) != casefold(sval(env["s"])))],
         exit=lambda env, st: [("no reserved keyword casefold-equals s", z3.Not(cf_in(RK, casefold(sval(env["s"])))))])
-    c = Contract(E + "PVLEncoder.needs_quotes", params={"s": "str"}, loops={0: kwloop}, exits=[
+    c = Contract(E + "PVLEncoder.needs_quotes", params={"s": "str"}, exits=[
         Exit("return", res="bool", post=lambda pre, post, a, r: [
             ("quoting rule of the statement (C17/C01)", r.t == nq_pvl(sval(a["s"])))])], props=("C17", "C01"))
     c.cases = [(cls, {"s": "str", "__cls__": cls}) for cls in ("PVLEncoder", "ODLEncoder", "PDSLabelEncoder", "ISISEncoder")]
@@ -119,7 +119,7 @@ def quoting_contracts():
     feloop = LoopSpec(
         fall_through=lambda env, st, x: [("the format effector is not in the text", z3.Not(sub_in(x, sval(env["value"]))))],
         exit=lambda env, st: [("no format effector in the text", z3.Not(sub_any(FE, sval(env["value"]))))])
-    c = Contract(E + "ODLEncoder.is_symbol", params={"value": "str"}, loops={0: feloop}, exits=[
+    c = Contract(E + "ODLEncoder.is_symbol", params={"value": "str"}, exits=[
         Exit("return", res="truthy", post=lambda pre, post, a, r: [
             ("truthy exactly for a symbol string: no apostrophe, no format effector, short enough to stay on one line, "
              "printable, not empty", r.t == sym(sval(a["value"])))])], props=("C12", "C01"))
@@ -460,12 +460,12 @@ def token_contracts():
               "decode_quoted_string": "is_quoted_string", "decode_simple_value": "is_simple_value"}[nm],
              (lambda nm: lambda t: dec(nm, t))(nm))
     pred("is_numeric", numeric)
-    pred("is_unquoted_string", unq, loops={0: not_sub(RC), 1: pair_loop, 2: not_sub(WS)})
-    pred("is_parameter_name", lambda t: z3.And(z3.Not(cf_in(RK, casefold(t))), unq(t)), loops={0: not_cf(RK)})
-    pred("is_begin_aggregation", lambda t: cf_in(AK, casefold(t)), loops={0: not_cf(AK)}, props=("C17", "C03"))
-    pred("is_end_statement", lambda t: cf_in(ES, casefold(t)), loops={0: not_cf(ES)}, props=("C17", "C03"))
+    pred("is_unquoted_string", unq, loops=None)
+    pred("is_parameter_name", lambda t: z3.And(z3.Not(cf_in(RK, casefold(t))), unq(t)), loops=None)
+    pred("is_begin_aggregation", lambda t: cf_in(AK, casefold(t)), loops=None, props=("C17", "C03"))
+    pred("is_end_statement", lambda t: cf_in(ES, casefold(t)), loops=None, props=("C17", "C03"))
     pred("is_delimiter", lambda t: set_has(DL, t), props=("C03",))
-    pred("is_comment", lambda t: comment_match(CM, t), loops={0: comment_loop}, props=("C04",))
+    pred("is_comment", lambda t: comment_match(CM, t), loops=None, props=("C04",))
     pred("is_string", lambda t: z3.Or(dec("decode_quoted_string", t), unq(t)))
     return out
 
@@ -492,7 +492,7 @@ def identifier_contracts():
     loop = LoopSpec(
         fall_through=lambda env, st, x: [("the character is a letter, a digit or an underscore", identchar(x))],
         exit=lambda env, st: [("every character is a letter, a digit or an underscore", all_chars_ident(sval(env["value"])))])
-    c = Contract("pvl.decoder.ODLDecoder.is_identifier", params={"value": "str"}, loops={0: loop}, exits=[
+    c = Contract("pvl.decoder.ODLDecoder.is_identifier", params={"value": "str"}, exits=[
         Exit("return", res="bool", post=lambda pre, post, a, r: [("is_identifier == the ODL identifier rule", r.t == spec(sval(a["value"])))])],
         props=("C17", "C12"))
     return [c]
@@ -585,7 +585,7 @@ def sweep_contracts():
     loop = LoopSpec(
         fall_through=lambda env, st, x: [("the character is allowed by the grammar", allowed(x))],
         exit=lambda env, st: [("every character of the text is allowed", all_chars_allowed(sval(env["s"])))])
-    c = Contract(E + "PVLEncoder.encode", params={"module": "pyval"}, loops={0: loop}, exits=[
+    c = Contract(E + "PVLEncoder.encode", params={"module": "pyval"}, exits=[
         Exit("return", res="str", post=lambda pre, post, a, r: [
             ("the returned text consists of characters of the grammar's character set only", all_chars_allowed(r.t))]),
         Exit("ValueError"), Exit("TypeError")], props=("C12", "C15"))
@@ -856,7 +856,7 @@ def units_contracts():
     notq = LoopSpec(
         fall_through=lambda env, st, x: [("the value is not an instance of this quantity class", z3.Not(inst_of(env["value"].info["id"], x)))],
         exit=lambda env, st: [("the value is not a quantity of any registered class", z3.Not(is_quantity(env["value"].info["id"])))])
-    pv_ = Contract(E + "PVLEncoder.encode_value", params={"value": "pyval"}, loops={0: notq}, exits=[
+    pv_ = Contract(E + "PVLEncoder.encode_value", params={"value": "pyval"}, exits=[
         Exit("return", res="str", post=lambda pre, post, a, r: [
             ("a quantity is written by encode_quantity, anything else by encode_simple_value",
              r.t == z3.If(is_quantity(a["value"].info["id"]), z3.Const("result_of_encode_quantity", S),
@@ -879,7 +879,7 @@ def odl_units_contracts():
     notq = LoopSpec(
         fall_through=lambda env, st, x: [("the value is not an instance of this quantity class", z3.Not(inst_of(env["value"].info["id"], x)))],
         exit=lambda env, st: [("the value is not a quantity of any registered class", z3.Not(is_quantity(env["value"].info["id"])))])
-    c = Contract(E + "ODLEncoder.encode_value", params={"value": "pyval"}, loops={0: notq}, exits=[
+    c = Contract(E + "ODLEncoder.encode_value", params={"value": "pyval"}, exits=[
         Exit("return", res="str", post=lambda pre, post, a, r: [
             ("units are written only after a number: a quantity is passed on only when its magnitude is numeric and not a bool",
              z3.Or(z3.Not(is_quantity(a["value"].info["id"])), units_number(a["value"].info["id"]))),
@@ -1057,7 +1057,7 @@ def unquoted_contracts():
         dd.assumed = True
         dd.note = "returns or raises ValueError as decided by one uninterpreted predicate (functional contracts: T_dec / T_off)"
         out.append(dd)
-    c = Contract(D + "PVLDecoder.decode_unquoted_string", params={"value": "str"}, loops={1: inner, 2: kwloop, 3: esloop}, exits=[
+    c = Contract(D + "PVLDecoder.decode_unquoted_string", params={"value": "str"}, exits=[
         Exit("return", res="str", when=lambda pre, a: unq(a["value"].t), post=lambda pre, post, a, r: [
             ("the string itself is returned", r.t == a["value"].t)]),
         Exit("ValueError", when=lambda pre, a: z3.Not(unq(a["value"].t)))], props=("C17", "C03"))
